@@ -105,6 +105,11 @@ def _cond_name(a, v, mp):
         c = const_int(a[3])
         if (a[1], c) in (("Gt", 1), ("Ge", 2)):
             return "len>1" if v else "!len>1"
+    # the same test asked the other way round:  len <= 1  /  len < 2
+    if isinstance(a, tuple) and a[0] == "binop" and a[1] in ("Le", "Lt") and a[2] == T("len", T("field", mp, "to")):
+        c = const_int(a[3])
+        if (a[1], c) in (("Le", 1), ("Lt", 2)):
+            return "!len>1" if v else "len>1"
     return None
 
 
